@@ -9,16 +9,19 @@
    evidence.
 
    Part (a): re-statements of the never-panic results of the cores built for other properties
-             (closed by the pinned theorems of Props/C01, C07, C10, C14, C16, C18).
+             (closed by the pinned theorems of Props/C01, C07, C09, C10, C12, C14, C16, C17, C18).
    Part (b): the typed parsers nobody else models (theories/Panic): ContentDisposition::from_raw,
              http::header::Range + ByteRangeSpec::to_satisfiable_range, ConnectionInfo::new, the
-             h1 encoder's header writer (length accounting). `Query` extraction is a single call
+             h1 encoder's header writer (length accounting), the multipart field scanner and
+             boundary readers (index arithmetic; look-ahead constant read from the sources). `Query` extraction is a single call
              of serde_urlencoded::from_str (outside). *)
 From AV Require Import Lib.Base.
-From AV Require Props.C01 Props.C07 Props.C10 Props.C14 Props.C16 Props.C18.
+From AV Require Props.C01 Props.C07 Props.C09 Props.C10 Props.C12 Props.C14 Props.C16 Props.C17 Props.C18.
+From AV Require Gen.Consts Panic.ClientNoPanic.
 From AV Require Import Panic.Str Panic.StrProofs.
 From AV Require Import Panic.CDisp Panic.CDispProofs Panic.RangeHdr Panic.RangeHdrProofs.
 From AV Require Import Panic.ConnInfo Panic.ConnInfoProofs Panic.HdrWriter Panic.HdrWriterProofs.
+From AV Require Import Panic.MpScan Panic.MpScanProofs.
 
 (* ============================== (a) cores modelled for other properties ====================== *)
 
@@ -103,6 +106,57 @@ Theorem C19_headermap_iter_never_panics : forall (ops : list Map.op) (es : list 
   Map.iter_collect (S (length (MapProofs.flatten es))) (Map.iter_new es (Map.len (Map.run ops))) <> Panic.
 Proof. intros ops es P. rewrite (proj1 (C18.C18_iter_exact ops es P)). discriminate. Qed.
 
+(* WebSocket handshake: `hash_key` (SHA-1 + base64 into a 28-byte array: the `unwrap` of
+   encode_slice and the `assert_eq!(n, 28)` cannot fire) and `handshake` are total. [C14] *)
+Theorem C19_ws_hash_key_never_panics : forall key : bytes, HashKey.hash_key key <> Panic.
+Proof. intro key. destruct (C14.C14_hash_key_28 key) as (b & E & _). rewrite E. discriminate. Qed.
+
+Theorem C19_ws_handshake_never_panics : forall (method : bytes) (h : Handshake.headers),
+  HashKey.handshake method h <> Panic.
+Proof.
+  intros m h. pose proof (C14.C14_handshake_total m h) as T.
+  destruct (Handshake.verify_handshake m h); [rewrite T; discriminate|].
+  destruct T as [a E]. rewrite E. discriminate.
+Qed.
+
+(* application routing (scopes, resources, guards, default services; nested Path captures with
+   their u16 offsets): for every buildable application and every request path below the 2^16
+   limit of http::Uri, `route` returns an outcome. [C09] *)
+Theorem C19_app_routing_never_panics : forall (a : RouteTree.app) (rq : RouteTree.req),
+  RouteSpec.wf_app C09.MAX a -> lenN (RouteTree.r_uri_path rq) <= 65535 ->
+  RouteTree.route C09.MAX a rq <> Panic.
+Proof.
+  intros a rq W L. destruct (C09.C09_route_refines_spec_code_rule a rq W L) as ((o & E) & _).
+  rewrite E. discriminate.
+Qed.
+
+(* Quoter::requote (the in-place percent decoder in front of the router; total in its model):
+   the output never outgrows the input, so the write cursor stays inside the buffer. [C10] *)
+Theorem C19_router_requote_never_lengthens : forall (prot : bytes) (q : Quoter.quoter) (s : bytes),
+  Quoter.quoter_new prot = Val q -> (length (Quoter.requote_full q s) <= length s)%nat.
+Proof. exact C10.C10_requote_never_lengthens. Qed.
+
+(* MultipartForm limits: every successful `checked_sub` bookkeeping step subtracts exactly the
+   field's bytes from the remaining budgets: no wrap-around. [C12] *)
+Theorem C19_multipart_limits_no_wrap : forall (l l' : Extract.limits) (n : N) (in_memory : bool),
+  Extract.try_consume_limits l n in_memory = Some l' ->
+  Extract.total_rem l' + n = Extract.total_rem l /\
+  Extract.memory_rem l' + (if in_memory then n else 0) = Extract.memory_rem l.
+Proof.
+  intros l l' n m H. destruct (C12.C12_multipart_no_wrap l l' n m H) as (A & B & _). split; assumption.
+Qed.
+
+(* h1 client: reading a response body (ClientPayloadCodec over the payload decoder, driven like
+   awc does, any segmentation, connection closed or not) ends in data, an error or a time-out,
+   never in a panic (debug_assert!(payload.is_some()), unwrap, split_to). From C17's model and
+   semantic lemma + C01's chunk arithmetic. [C17, C01] *)
+Theorem C19_client_body_never_panics :
+  forall (v : PlStream.variant) (c : ClientCodec.ccodec) (k : PayloadDec.kind) (buf : bytes)
+         (segs : list bytes) (closed : bool),
+  ClientCodec.cc_payload c = Some k -> ClientProofs.fresh k -> BodyProofs.nonempty segs ->
+  fst (ClientProofs.body_result v c buf segs closed) <> PlStream.BPanic.
+Proof. exact ClientNoPanic.client_body_never_panics. Qed.
+
 (* ============================== (b) typed parsers modelled here ============================== *)
 
 (* ContentDisposition::from_raw: for every header value (any bytes) and every behaviour of the
@@ -154,6 +208,42 @@ Theorem C19_h1_header_writer_never_panics :
                len + sumN (map line_len hs) <= cap'.
 Proof. exact write_headers_ok. Qed.
 
+(* multipart field scanner InnerField::read_stream with the look-ahead constant READ FROM THE
+   SOURCES (`cur + 4 > len`): payload.buf[0], [2..4], [1..3], [b_len..b_size], &buf[pos..],
+   [cur..cur+2], [cur+2..cur+4], [cur..=cur], [cur+1..cur+3] and split_to(cur) are all inside the
+   buffer, no offset addition wraps, and the scan loop ends — for every buffer content, eof flag
+   and boundary. (Byte exactness of the scanner is C15.) *)
+Theorem C19_multipart_scan_never_panics : forall (buf : bytes) (eof : bool) (boundary : bytes),
+  lenN buf + 4 <= usize_max -> lenN boundary + 4 <= usize_max ->
+  read_stream Consts.MULTIPART_SCAN_LOOKAHEAD buf eof boundary <> Panic.
+Proof.
+  intros buf eof b H1 H2. change Consts.MULTIPART_SCAN_LOOKAHEAD with 4.
+  destruct (read_stream_total buf eof b H1 H2) as [r E]. rewrite E. discriminate.
+Qed.
+
+(* ... and the constant matters: with a look-ahead of 3 the CRLF arm slices one past the end
+   when the buffer ends one byte after a CRLF (the segmentation-dependent panic of seeded C19-1) *)
+Theorem C19_multipart_scan_lookahead_3_panics :
+  exists (buf boundary : bytes), read_stream 3 buf false boundary = Panic.
+Proof. exists [97; 13; 10; 88], [120]. exact lookahead_3_panics. Qed.
+
+(* PayloadBuffer::read_max / read_exact / read_until (split_to(idx + needle.len())), the line
+   reader of read_boundary, InnerField::read_len (`*size -= len`) and the readline loop of
+   skip_until_boundary never panic and the loop ends *)
+Theorem C19_multipart_readers_never_panic : forall (buf needle boundary : bytes) (size : N) (eof : bool),
+  lenN buf <= usize_max ->
+  read_max buf size <> Panic /\ read_exact buf size <> Panic /\ read_until buf needle <> Panic /\
+  read_len buf size <> Panic /\ read_boundary_line buf eof <> Panic /\
+  skip_until_boundary buf boundary <> Panic.
+Proof.
+  intros buf needle b size eof H.
+  destruct (read_max_total buf size) as [x1 E1]. destruct (read_exact_total buf size) as [x2 E2].
+  destruct (read_len_total buf size) as [x4 E4]. destruct (read_boundary_line_total buf eof H) as [x5 E5].
+  destruct (skip_until_boundary_total buf b H) as [x6 E6].
+  rewrite E1, E2, E4, E5, E6. repeat split; try discriminate.
+  destruct (read_until_spec buf needle H) as [E|(i & _ & E)]; rewrite E; discriminate.
+Qed.
+
 (* non-vacuity: concrete inputs exercise the partial primitives (escapes, a multi-byte character
    right after the closing quote position, ext-value; suffix range; bracketed IPv6 "for";
    a writer run with two reserves) *)
@@ -164,5 +254,7 @@ Example C19_example :
   to_satisfiable_range (Last 5) 3 = Val (Some (0, 2)) /\
   conn_info [[102;111;114;61;34;91;58;58;49;93;58;56;48;34;59;112;114;111;116;111;61;104;116;116;112;115]]
             None None None None None None false [104] = Val ([104;116;116;112;115], [104], Some [58;58;49]) /\
-  write_headers grow_min 3 8 [(6, 10); (7, 100)] = Val (3 + 20 + 111, 245).
+  write_headers grow_min 3 8 [(6, 10); (7, 100)] = Val (3 + 20 + 111, 245) /\
+  read_stream 4 [97; 13; 10; 88] false [120] = Val (RChunk [97] [13; 10; 88]) /\
+  read_stream 4 [13; 10; 45; 45; 120; 13; 10] false [120] = Val RBoundary.
 Proof. vm_compute. repeat split. Qed.
